@@ -26,6 +26,11 @@ Proof.
   intros e. rewrite forallb_forall in H0. apply H0. destruct e; simpl; auto 10.
 Qed.
 
+Lemma skel_ok_combo sk : skel_ok sk = true -> k_combo_first sk = true.
+Proof.
+  unfold skel_ok. intros H. repeat (apply andb_true_iff in H; destruct H as [H ?]). exact H.
+Qed.
+
 Lemma broad_catches hs e : broad hs = true -> catches hs e = true.
 Proof.
   unfold broad. rewrite forallb_forall. intros H. apply H. destruct e; simpl; auto 10.
@@ -116,7 +121,7 @@ Theorem count_correct sk f : skel_ok sk = true -> parse_caught sk f ->
   main_with sk f = Exit (count f).
 Proof.
   intros Hs Hp. pose proof (skel_ok_inv sk Hs) as (Ho&Hpa&Hq&Hns&Hk&_&_&Hnc&_).
-  unfold main_with, count.
+  unfold main_with, count. cbv zeta. rewrite (skel_ok_combo sk Hs). cbn [andb].
   destruct (f_argparse f); try reflexivity.
   destruct (negb (is_tnone (f_target f)) && is_nil (f_models f)) eqn:Eg; try reflexivity.
   rewrite (usage_ok sk f Ho Hpa Hq).
@@ -256,11 +261,12 @@ Qed.
 
 (* ---- argument errors ----------------------------------------------------------- *)
 Theorem argparse_two sk f :
-  f_argparse f = AError \/ (f_argparse f = AOk /\ f_target f <> TNone /\ f_models f = []) ->
+  f_argparse f = AError \/
+  (k_combo_first sk = true /\ f_argparse f = AOk /\ f_target f <> TNone /\ f_models f = []) ->
   main_with sk f = Exit 2.
 Proof.
-  unfold main_with. intros [H|(H&Ht&Hm)]; rewrite H; auto.
-  rewrite Hm. destruct (f_target f); simpl; congruence.
+  unfold main_with. intros [H|(Hc&H&Ht&Hm)]; rewrite H; auto.
+  rewrite Hm, Hc. destruct (f_target f); simpl; congruence.
 Qed.
 
 (* ---- per-model independence ---------------------------------------------------- *)
